@@ -71,6 +71,13 @@ pub fn gen_scenario(seed: u64, fixtures: &[String]) -> Scenario {
             DocGen::new(s, s).with_loose(0.5).document(n)
         };
         let d = if rng.chance(0.08) { gen::erroneous_variant(&d, &mut rng) } else { d };
+        let d = if rng.chance(0.03) {
+            // a document on which the library panics by itself (skipped by the oracle when the
+            // fresh-process reference panics too; what matters is every call *after* it)
+            format!("{}{}\n", d, DocGen::new(seed, seed).natural_abort())
+        } else {
+            d
+        };
         docs.push(d);
     }
     // ---- scripts
